@@ -168,6 +168,10 @@ func cellRoot(addr ssa.Value) ssa.Value {
 // Strip peels value-preserving wrappers: ChangeType, ChangeInterface,
 // MakeInterface, loads of single-assignment variable cells, single-edge phis
 // and FreeVars bound by value.
+// PhiHook, when set, lets a path-sensitive client resolve a phi to the one
+// operand that is live under its path condition (nil: no resolution).
+var PhiHook func(*ssa.Phi) ssa.Value
+
 func Strip(v ssa.Value) ssa.Value {
 	for i := 0; i < 64; i++ {
 		switch x := v.(type) {
@@ -184,6 +188,12 @@ func Strip(v ssa.Value) ssa.Value {
 			}
 			v = b
 		case *ssa.Phi:
+			if PhiHook != nil {
+				if a := PhiHook(x); a != nil {
+					v = a
+					continue
+				}
+			}
 			var u ssa.Value
 			same := true
 			for _, e := range x.Edges {
